@@ -156,6 +156,11 @@ def limit_payload(rng, k, layout):
     elif layout == 'delivered-to-rcpt':
         # the other loop test of smtp_data(): a Delivered-To: line naming a recipient
         hdr = known + rec + [rng.choice([b'Delivered-To: alice@example.org', b'DELIVERED-TO: Alice@Example.Org', b'Delivered-To: alice@example.org  '])]
+    elif layout == 'dot-stuffed':
+        # the client puts the transparency dot in front of lines that do not need it (RFC 5321 4.5.2 lets it): the
+        # stored lines are Received: fields like any other
+        w = c02.wire(known[:1] + [b'\x00MARK' + r for r in rec] + known[1:] + [b'', b'body'])
+        return w.replace(b'\x00MARK', b'.')
     else:   # 'none-known'
         hdr = [b'Subject: s'] + rec
     body = [b'', b'Received: in the body', b'body'] if rng.random() < 0.8 else []
@@ -206,7 +211,7 @@ def limit_specs(ctx):
                 'txs': [{'mail': HX(b'MAIL FROM:<s@remote.example>'), 'rcpts': [HX(rcpt)], 'payload': {'hex': HX(payload)},
                          'cuts': None, 'greet': None, 'tag': tag}], 'post': [HX(b'NOOP'), HX(b'QUIT')]}
     modes = [('plain', {}), ('strict', {'strict_all': 1}), ('submission', {'port': '587', 'relay': 'listed'})]
-    layouts = ['first', 'after', 'between', 'after-other', 'folded', 'folded-at-colon', 'none-known', 'delivered-to-rcpt']
+    layouts = ['first', 'after', 'between', 'after-other', 'folded', 'folded-at-colon', 'none-known', 'delivered-to-rcpt', 'dot-stuffed']
     for mname, mw in modes:
         for k in ([99, 100, 101, 102] if quick else range(97, 106)):
             for lay in layouts:
@@ -218,6 +223,19 @@ def limit_specs(ctx):
                     w = dict(mw); w['control'] = {'databytes': HX(b'%d\n' % db)}
                     specs.append(spec(w, pl, 'size-%s/%s' % (mname, shape)))
     return specs
+
+
+def known_class(f, case, impl, clause):
+    """c15-dot-stuffed-received: the hop limit is passed by Received: lines that carry a transparency dot on the wire"""
+    if f.get('id') != 'c15-dot-stuffed-received' or not clause.startswith('fails hop-limit'):
+        return False
+    import re
+    try:
+        pl = bytes.fromhex(json.loads(case)['txs'][0]['payload']['hex'])
+    except Exception:
+        return False
+    plain = len(re.findall(rb'(?:^|\r\n)received:', pl, re.I))
+    return plain <= 100 and len(re.findall(rb'\r\n\.received:', pl, re.I)) > 0
 
 
 def prop_on_transcripts(ctx, specs, results):
@@ -232,7 +250,7 @@ def prop_on_transcripts(ctx, specs, results):
         pl = txs[0].payload
         lines = c02.data_lines(pl) or []
         hdr = lines[:lines.index(b'')] if b'' in lines else lines
-        nrec = sum(1 for l in hdr if l[:9].lower() == b'received:')
+        nrec = sum(1 for l in hdr if (l[1:] if l[:1] == b'.' else l)[:9].lower() == b'received:')      # as stored: without the transparency dot
         stored = sum(len(l) - (1 if l[:1] == b'.' else 0) + 2 for l in lines)
         dbh = sp['world'].get('control', {}).get('databytes')
         db = int(vlib.unhex(dbh)) if dbh else 0
@@ -255,7 +273,7 @@ def prop_on_transcripts(ctx, specs, results):
         if nrec <= 100 and plain and not deliv and (not db or stored <= db) and final != '250':
             fails.append((case, obs, 'fails limit-not-reached-but-refused'))
         ctx.count('transcript-clauses')
-    vlib.handle_results(ctx, 'data-limits-transcripts', 'property clauses on the real server transcript', [], fails)
+    vlib.handle_results(ctx, 'data-limits-transcripts', 'property clauses on the real server transcript', [], fails, known_class=known_class)
 
 
 def run(ctx):
